@@ -475,7 +475,8 @@ def gen_case(rng):
         c = gen_stable(rng)
     elif r < 0.84:
         n = rng.choice([1, 2])
-        c = {"kind": "accumulate", "b": [rng.choice([1, 2, 5]) for _ in range(n)],
+        # also a slow drift (2^-30, 2^-20 per time unit): below some tolerances per search step, above others
+        c = {"kind": "accumulate", "b": [rng.choice([1, 2, 5, "1/1073741824", "1/1048576"]) for _ in range(n)],
              "y0": [rng.choice([0, 0, 1, 2, 10]) for _ in range(n)]}
     elif r < 0.89:
         c = {"kind": "grow", "y0": [rng.choice([1, 2])], "g": rng.choice([1, 1, 8, 16])}
@@ -509,6 +510,10 @@ def gen_case(rng):
 
 
 FIXED = [
+    # F-C15-4: a drift slower than the tolerance per search step (dx/dt = 2^-30, tolerance 1e-6) is reported as steady;
+    # the same drift is refused at tolerance 1e-9
+    {"kind": "accumulate", "b": ["1/1073741824"], "y0": [1], "tol_exp": 6, "rel": False, "y0mode": "default", "scan": True},
+    {"kind": "accumulate", "b": ["1/1073741824"], "y0": [1], "tol_exp": 9, "rel": False, "y0mode": "default", "scan": False},
     # F-C15-3: finite-time blow-up (dx/dt = x^2): the solver gives up, its frozen state must not be reported as steady
     {"kind": "blowup", "x0": "1", "ms": [], "zs": [], "z0": [], "tol_exp": 6, "rel": False, "y0mode": "default", "scan": True},
     {"kind": "blowup", "x0": "1/250", "ms": [1], "zs": ["1"], "z0": ["5"], "tol_exp": 3, "rel": True, "y0mode": "user",
@@ -586,12 +591,13 @@ def judge_case(ctx, case, r, m, orc):
     finding = None
     if R.get("outcome") == "steady" and R.get("n") == 2 and r.get("start") is None:
         finding = "F-C15-1"
-    # F-C15-2: the RELATIVE criterion is met by a variable that keeps accumulating (|b|*100/|y| < tol) — only when the
-    # independent oracle finds the criterion met at exactly the step the real run reports
-    if case["kind"] == "accumulate" and case["rel"] and n_exact is not None and R.get("n") == n_exact \
+    # F-C15-2 / F-C15-4: the criterion is met by a variable that keeps accumulating (relative: |b|*100/|y| < tol; absolute:
+    # drift |b|*100 < tol) — only when the independent oracle finds the criterion met at exactly the step the real run reports
+    if case["kind"] == "accumulate" and n_exact is not None and R.get("n") == n_exact \
             and R.get("outcome") == "steady" and R.get("start_ok", True):
-        finding = "F-C15-2"
-        ctx.hist["rel_criterion_met_while_accumulating"] = ctx.hist.get("rel_criterion_met_while_accumulating", 0) + 1
+        finding = "F-C15-2" if case["rel"] else "F-C15-4"
+        key = "rel_criterion_met_while_accumulating" if case["rel"] else "abs_criterion_met_by_slow_drift"
+        ctx.hist[key] = ctx.hist.get(key, 0) + 1
     ctx.judge(case, R, S, M, finding=finding,
               what="simulate_to_steady_state(...).get_result() vs closed-form flow from the state the simulator holds")
 
